@@ -187,21 +187,26 @@ func (pool *TxPool) DelTxs(txs types.Transactions) {
 }
 
 func (pool *TxPool) isTxExist(tx *types.Transaction) bool {
-	hash := tx.Hash()
-	if _, ok := pool.hashIndexMap[hash]; ok {
+	if pool.isHashExist(tx.Hash()) {
 		return true
 	}
 
 	// check sub transactions in box transaction
 	if tx.Type() == params.BoxTx {
 		for _, subTx := range getSubTxs(tx) {
-			if _, ok := pool.hashIndexMap[subTx.Hash()]; ok {
+			if pool.isHashExist(subTx.Hash()) {
 				return true
 			}
 		}
 	}
 
 	return false
+}
+
+// isHashExist tests if the hash belongs to a transaction in the pool. The index of a box tx and of its other sub txs stay behind when the box tx was deleted by one of its sub txs. Their slot is empty, they must not keep these transactions out of the pool
+func (pool *TxPool) isHashExist(hash common.Hash) bool {
+	index, ok := pool.hashIndexMap[hash]
+	return ok && pool.txs[index] != nil
 }
 
 func (pool *TxPool) gc() {
